@@ -112,6 +112,9 @@ def pge (p q : Option P) : Bool := !plt p q
 def pne (p q : Option P) : Bool := decide (p ≠ q)
 def peq (p q : Option P) : Bool := decide (p = q)
 
+/-- the guard of `reserve(usize)` as the model has it (tied to the sources by the executed probe) -/
+def needGrow (A : Arr) (size : Nat) : Bool := decide (size > A.cap ∨ (A.begin.isNone ∧ size > 0))
+
 /-- the array object `A` in memory `M` represents the cell-level model state `r` -/
 def Rep (M : Mem) (A : Arr) (r : RArr) : Prop :=
   A.cap = r.cap ∧
